@@ -122,6 +122,51 @@ def run_elastic(case, mesh):
         res["shape_" + nm] = list(v.shape)
         res["err_%s_plain" % nm] = float(np.abs(v - np.asarray(exactP)[None, :]).max()) if v.shape[1] == len(exactP) else None
         res["err_%s_KM" % nm] = float(np.abs(v - np.asarray(exactKM)[None, :]).max()) if v.shape[1] == len(exactKM) else None
+    if case.get("remap") is not None:
+        # near-identity rigid motion of the SAME mesh object after the first solve (relative change
+        # ~1e-6), then a second patch test on the same simulation: every geometry-derived cached value
+        # must follow the coordinates
+        th_deg, axis = case["remap"]
+        mesh.Rotate(th_deg, mesh.center, tuple(axis))
+        X2 = np.asarray(mesh.coord, dtype=float)[:, :dim]
+        res["remap_moved"] = float(np.abs(X2 - X).max())
+        U2 = X2 @ A.T + c
+        simu.Bc_Init()
+        simu.add_dirichlet(bn, [U2[bn, m] for m in range(dim)], unk)
+        u2 = np.asarray(simu.Solve(), dtype=float).reshape(-1, dim)
+        res["remap_err_u"] = float(np.abs(u2[used] - U2[used]).max())
+        errs = []
+        for cname, ex in zip(comps, plain_e):
+            errs.append(float(np.abs(np.asarray(simu.Result("E" + cname, nodeValues=False), dtype=float) - ex).max()))
+        res["remap_err_strain"] = max(errs)
+        errs = []
+        for cname, ex in zip(comps, plain_s):
+            errs.append(float(np.abs(np.asarray(simu.Result("S" + cname, nodeValues=False), dtype=float) - ex).max()))
+        res["remap_err_stress"] = max(errs)
+        res["remap_Wdef"] = float(simu.Result("Wdef"))
+        # then a near-identity shear + stretch through the public mesh.coord setter and a patch test
+        # with a NEW simulation on the same mesh object (nobody observes the mesh at the time of the map)
+        Bm = np.eye(3)
+        Bm[:dim, :dim] += 1e-6 * np.array([[0.7, 1.0, 0.3], [-0.4, -0.9, 0.5], [0.2, -0.6, 0.8]])[:dim, :dim]
+        meas2 = measure_of(mesh) * abs(np.linalg.det(Bm))
+        simu = None                 # the first simulation is dropped: no live observer of the mesh
+        import gc
+        gc.collect()
+        mesh.coord = np.asarray(mesh.coord, dtype=float) @ Bm.T
+        X3 = np.asarray(mesh.coord, dtype=float)[:, :dim]
+        U3 = X3 @ A.T + c
+        simu3 = Simulations.Elastic(mesh, mat)
+        simu3.add_dirichlet(bn, [U3[bn, m] for m in range(dim)], unk)
+        u3 = np.asarray(simu3.Solve(), dtype=float).reshape(-1, dim)
+        res["remap_err_u"] = max(res["remap_err_u"], float(np.abs(u3[used] - U3[used]).max()))
+        for cname, ex, exs in zip(comps, plain_e, plain_s):
+            res["remap_err_strain"] = max(res["remap_err_strain"], float(np.abs(np.asarray(simu3.Result("E" + cname, nodeValues=False), dtype=float) - ex).max()))
+            res["remap_err_stress"] = max(res["remap_err_stress"], float(np.abs(np.asarray(simu3.Result("S" + cname, nodeValues=False), dtype=float) - exs).max()))
+        res["remap_Wdef_new"] = float(simu3.Result("Wdef"))
+        res["remap_Wdef_new_exact"] = float(0.5 * th * meas2 * (e @ C @ e))
+        res["remap_measure_err"] = float(abs(measure_of(mesh) - meas2) / meas2)
+        simu = simu3
+        U = U3
     # discrete-divergence hypothesis of patch_equilibrium_partial: residual K u_lin at interior dofs
     K = simu.Get_K_C_M_F()[0]
     r = K @ U.ravel()
@@ -156,36 +201,75 @@ def run_thermal(case, mesh):
 
 
 def run_beam(case):
-    """constant axial strain (ux = e x) and constant curvature (uy = k x^2/2, rz = k x) prescribed at
-    both ends; no load: the solve must return them at every node"""
+    """constant axial strain, constant curvature in BOTH bending planes and constant twist rate,
+    written in the beam's local frame (i, j, k):
+        u = e0 x',  v = kz x'^2/2,  w = ky x'^2/2,  rx = t0 x',  ry = -ky x',  rz = kz x'
+    (no shear strain: v' - rz = 0, w' + ry = 0, so it is an equilibrium state of both theories with no
+    load), mapped to the global frame with P = _Calc_P(), prescribed at the two end nodes only.
+    Every node must reproduce it and the reported generalised strains / internal forces are the constants."""
     from EasyFEA import Mesher, Models, Simulations
     from EasyFEA.FEM._utils import ElemType
     from EasyFEA.Geoms import Domain, Point, Line
-    bd, L, n = case["beamDim"], case["L"], case["n"]
+    bd, n = case["beamDim"], case["n"]
+    p1 = np.array(case.get("p1", [0.0, 0.0, 0.0]), dtype=float)
+    p2 = np.array(case.get("p2", [case.get("L", 1.0), 0.0, 0.0]), dtype=float)
+    L = float(np.linalg.norm(p2 - p1))
     mesher = Mesher()
     section = mesher.Mesh_2D(Domain(Point(-case["b"] / 2, -case["h"] / 2), Point(case["b"] / 2, case["h"] / 2)))
-    line = Line(Point(), Point(x=L), L / n)
-    beam = Models.Beam.Isotropic(bd, line, section, case["E"], case["v"])
+    line = Line(Point(*p1), Point(*p2), L / n)
+    kw = {} if case.get("yAxis") is None else {"yAxis": tuple(case["yAxis"])}
+    beam = Models.Beam.Isotropic(bd, line, section, case["E"], case["v"], **kw)
     mesh = mesher.Mesh_Beams([beam], elemType=getattr(ElemType, case["elem"]))
     simu = Simulations.Beam(mesh, Models.Beam.BeamStructure([beam]), useTimoshenko=case["timo"], verbosity=False)
     mesh = simu.mesh
-    x = np.asarray(mesh.coord)[:, 0]
-    e0, k0 = case["axial"], case["curv"]
-    ends = np.array([int(np.argmin(x)), int(np.argmax(x))])
+    P = np.asarray(beam._Calc_P(), dtype=float)            # columns: local axes i, j, k in global coordinates
+    X = np.asarray(mesh.coord, dtype=float)
+    x = (X - p1) @ P[:, 0]
+    e0, kz = case["axial"], case["curv"]
+    ky = case.get("curv_y", 0.0) if bd == 3 else 0.0
+    t0 = case.get("twist", 0.0) if bd == 3 else 0.0
+    if bd == 1:
+        kz = 0.0
+    ul = np.stack([e0 * x, kz * x**2 / 2, ky * x**2 / 2], axis=1)
+    rl = np.stack([t0 * x, -ky * x, kz * x], axis=1)
+    ug, rg = ul @ P.T, rl @ P.T
+    exact = {"x": ug[:, 0], "y": ug[:, 1], "z": ug[:, 2], "rx": rg[:, 0], "ry": rg[:, 1], "rz": rg[:, 2]}
     unk = simu.Get_unknowns()
-    exact = {"x": e0 * x}
-    if bd >= 2:
-        exact["y"] = k0 * x**2 / 2
-        exact["rz"] = k0 * x
-    if bd == 3:
-        exact["z"] = np.zeros_like(x); exact["rx"] = np.zeros_like(x); exact["ry"] = np.zeros_like(x)
+    ends = np.array([int(np.argmin(x)), int(np.argmax(x))])
     simu.add_dirichlet(ends, [exact[u][ends] for u in unk], unk)
     sol = np.asarray(simu.Solve(), dtype=float).reshape(mesh.Nn, -1)
     used = np.unique(mesh.connect)
     err = {u: float(np.abs(sol[used, i] - exact[u][used]).max()) for i, u in enumerate(unk)}
-    scale = max(abs(e0) * L, abs(k0) * L * L / 2, 1e-300)
-    return {"Nn": int(mesh.Nn), "Ne": int(mesh.Ne), "unknowns": unk, "err": err, "scale": scale,
-            "n_interior": int(used.size - 2)}
+    scale = max(abs(e0) * L, abs(kz) * L * L / 2, abs(ky) * L * L / 2, abs(t0) * L, 1e-300)
+    # reported constants (signed, except the bending-about-y pair whose sign convention is the library's)
+    E_, nu = case["E"], case["v"]
+    mu = E_ / (2 * (1 + nu))
+    A_, Iy, Iz, J = float(beam.area), float(beam.Iy), float(beam.Iz), float(beam.J)
+    signed = {"ux'": e0, "N": E_ * A_ * e0}
+    magnitude = {}
+    zero = []
+    if bd >= 2:
+        signed.update({"rz'": kz, "Mz": E_ * Iz * kz}); zero.append("Ty")
+    if bd == 3:
+        signed.update({"rx'": t0, "Mx": mu * J * t0}); magnitude.update({"ry'": abs(ky), "My": E_ * Iy * abs(ky)}); zero.append("Tz")
+    avail = set(simu.Results_Available())
+    post = {}
+    fscale = max(abs(E_ * A_ * e0), abs(E_ * Iz * kz) / L, abs(E_ * Iy * ky) / L, 1e-300)
+    for nm, val in signed.items():
+        if nm in avail and val != 0:
+            v = np.asarray(simu.Result(nm, nodeValues=False), dtype=float)
+            post[nm] = float(np.abs(v - val).max() / abs(val))
+    for nm, val in magnitude.items():
+        if nm in avail and val != 0:
+            v = np.asarray(simu.Result(nm, nodeValues=False), dtype=float)
+            post[nm] = float(np.abs(np.abs(v) - val).max() / val)
+            post[nm + ":sign_uniform"] = 0.0 if (np.all(v > 0) or np.all(v < 0)) else 1.0
+    for nm in zero:
+        if nm in avail:
+            v = np.asarray(simu.Result(nm, nodeValues=False), dtype=float)
+            post[nm] = float(np.abs(v).max() / fscale)
+    return {"Nn": int(mesh.Nn), "Ne": int(mesh.Ne), "unknowns": unk, "err": err, "scale": scale, "post": post,
+            "n_interior": int(used.size - 2), "L": L}
 
 
 def run_case(case):
